@@ -34,7 +34,9 @@
 (define-fun slice_wf ((s Slice)) Bool
   (and (bvule (sllen s) (slcap s)) (bvult (slcap s) LENMAX) (bvult (soff s) LENMAX)
        (=> (= (sbase s) null) (= s nilslice))))
-(define-fun selemaddr ((s Slice) (i (_ BitVec 64))) Ref (idx (sbase s) (bvadd (soff s) i)))
+; element address: uninterpreted symbol (so that it can serve as a quantifier pattern) with its definition as an axiom
+(declare-fun selemaddr (Slice (_ BitVec 64)) Ref)
+(assert (forall ((s Slice) (i (_ BitVec 64))) (! (= (selemaddr s i) (idx (sbase s) (bvadd (soff s) i))) :pattern ((selemaddr s i)))))
 
 (declare-datatype Func ((fnil) (fclo (fid Int) (fenv Ref))))
 
